@@ -34,7 +34,7 @@ package agent
 //@ fn (*Agent).Status(a) (st)
 //@   props C03 C04 C08 C14 C16
 //@   requires a.scheduler != nil && a.graph != nil && a.dag != nil && nodes_wf(a.graph)
-//@   modifies heap(alloc), ghost obs.nodedata_len
+//@   modifies heap(alloc), ghost obs.nodedata_len, ghost chk.fresh
 //@   ensures st != nil && !wasAllocated(st)
 //@   ensures [C08 reported_outcome_is_the_scheduler_outcome] st.Status ==
 //@        ite(outcome(a.scheduler, a.graph) == scheduler.StatusNone && a.graph.startedAt != 0, scheduler.StatusRunning, outcome(a.scheduler, a.graph))
@@ -199,3 +199,38 @@ package agent
 //@   assert before (*dag/scheduler.Scheduler).Schedule [C08 running_status_recorded_before_steps] hist.opens == old(hist.opens) + 1 && hist.writes > old(hist.writes)
 //@   ensures [C08 final_status_recorded_after_the_last_step] eff.sched != old(eff.sched) && old(!a.dry) ==>
 //@        (hist.last_write_sched == eff.sched && hist.closes == old(hist.closes) + 1 && hist.writes_at_close == hist.writes)
+
+// Stop (C05).  Agent.signal hands the signal to the scheduler (in a goroutine that also waits for the steps to end),
+// resends it every five seconds, and escalates to SIGKILL — which no step may override — once the DAG's maximum
+// clean-up time has elapsed.
+//@ fn (*Agent).signal$1()
+//@   props C05
+//@   requires a.scheduler != nil && a.graph != nil && nodes_wf(a.graph)
+//@   modifies *
+//@   spawn modifies ghost eff.sock
+//@   expect calls (*dag/scheduler.Scheduler).Signal >= 1
+//@   assert before (*dag/scheduler.Scheduler).Signal [C05 stop_signal_reaches_the_scheduler_unchanged] arg0 == a.scheduler && arg1 == a.graph && arg2 == sig && arg3 == done && arg4 == allowOverride
+//@ fn (*Agent).signal(a, sig, allowOverride)
+//@   props C05
+//@   requires a.scheduler != nil && a.graph != nil && a.dag != nil && a.logger != nil && nodes_wf(a.graph)
+//@   modifies *
+//@   expect calls go (*Agent).signal$1 >= 1
+//@   expect calls (*dag/scheduler.Scheduler).Signal >= 2
+//@   assert before (*dag/scheduler.Scheduler).Signal#0 [C05 unresponsive_steps_are_force_killed] arg1 == a.graph && isType(arg2, "syscall.Signal") && asType(arg2, "syscall.Signal") == 9 && arg3 == nil && !arg4
+//@   assert before (*dag/scheduler.Scheduler).Signal#1 [C05 stop_signal_is_repeated] arg1 == a.graph && arg2 == sig && arg3 == nil
+//@   assert before time.NewTimer#0 [C05 escalation_after_the_maximum_clean_up_time] arg0 == a.dag.MaxCleanUpTime
+
+// A stop request over the socket stops with SIGTERM and lets steps substitute their signalOnStop; an OS signal
+// received by the process is forwarded as it is.
+//@ fn (*Agent).HandleHTTP$1()
+//@   props C05
+//@   requires a.scheduler != nil && a.graph != nil && a.dag != nil && a.logger != nil && nodes_wf(a.graph)
+//@   modifies *
+//@   expect calls (*Agent).signal >= 1
+//@   assert before (*Agent).signal [C05 stop_request_sends_sigterm_or_the_step_s_own_signal] arg0 == a && isType(arg1, "syscall.Signal") && asType(arg1, "syscall.Signal") == 15 && arg2
+//@ fn (*Agent).Signal(a, sig)
+//@   props C05
+//@   requires a.scheduler != nil && a.graph != nil && a.dag != nil && a.logger != nil && nodes_wf(a.graph)
+//@   modifies *
+//@   expect calls (*Agent).signal >= 1
+//@   assert before (*Agent).signal [C05 received_signal_is_forwarded] arg0 == a && arg1 == sig
